@@ -19,7 +19,13 @@ func init() {
 func hC07Entity(kind int, tdesc [2]*gtfsrt.TripDescriptor, vdesc [2]*gtfsrt.VehicleDescriptor, refV0, refT0, refT1 bool) *gtfsrt.FeedEntity {
 	id := vr.T("e", kind)
 	cpT := func(i int) *gtfsrt.TripDescriptor { c := *tdesc[i]; return &c }
-	cpV := func(i int) *gtfsrt.VehicleDescriptor { c := *vdesc[i]; return &c }
+	cpV := func(i int) *gtfsrt.VehicleDescriptor {
+		if vdesc[i] == nil {
+			return nil
+		}
+		c := *vdesc[i]
+		return &c
+	}
 	switch kind {
 	case 0:
 		sid := vr.Str("tu0.stop")
@@ -83,6 +89,13 @@ func Harness_C07_permute() {
 	}
 	vr.Assume(tid[0] != "" && tid[1] != "" && tid[0] != tid[1])
 	vr.Assume(*vdesc[0].Id != *vdesc[1].Id)
+	// the second vehicle may also be anonymous: no descriptor at all, or a descriptor naming nothing
+	switch hConcretize(vr.Int("vehicle1.descriptor", 0, 2), 0, 2) {
+	case 1:
+		vdesc[1] = nil
+	case 2:
+		vdesc[1] = &gtfsrt.VehicleDescriptor{}
+	}
 	refV0, refT0, refT1 := vr.Bool("tu0.refs_vehicle0"), vr.Bool("vp0.refs_trip0"), vr.Bool("vp1.refs_trip1")
 	kinds := make([]int, E)
 	var ents []*gtfsrt.FeedEntity
